@@ -26,9 +26,9 @@ PROP = dict(
          "MAPAXES with and without MAPUNITS, GRIDUNIT, NNC records. A case is non-trivial when at least two input forms were "
          "accepted and the grid has >= 4 cells; distinct = distinct hash of (family, pillars, corner depths, map, ACTNUM).",
     stages=[
-        dict(harness="c13_grid", flavour="plain", cases={Q: 12000, T: 150000}, timeout={Q: 900, T: 7200},
+        dict(harness="c13_grid", flavour="plain", cases={Q: 12000, T: 150000}, timeout={Q: 1800, T: 10800},
              env={"OMP_WAIT_POLICY": "passive"}),
-        dict(id="c13_grid_tsan", harness="c13_grid", flavour="tsan", cases={Q: 1500, T: 30000}, timeout={Q: 900, T: 7200},
+        dict(id="c13_grid_tsan", harness="c13_grid", flavour="tsan", cases={Q: 1500, T: 30000}, timeout={Q: 1800, T: 10800},
              args=["mode=threads"], env={"OMP_WAIT_POLICY": "passive", "KMP_BLOCKTIME": "0"}),
     ],
     min_nontrivial={Q: 8000, T: 100000},
